@@ -186,6 +186,31 @@ func boundedFallback(P *Program, fr *FuncResult, opts CheckOpts, reason string) 
 	if len(fr2.CoverBad) > 0 {
 		return nil
 	}
+	// the bound must not cut off a whole return site: every `return` of the function has to be reached by
+	// some explored path (otherwise what lies behind a long loop was simply not looked at)
+	nret := 0
+	for _, b := range fn.Blocks {
+		if b == fn.Recover {
+			continue // the landing block of recovered panics: never entered by this executor
+		}
+		for _, in := range b.Instrs {
+			if _, ok := in.(*ssa.Return); ok {
+				nret++
+			}
+		}
+	}
+	reached := map[string]bool{}
+	for _, c := range ex.covers {
+		if strings.Contains(c.Site, "/cover:return#") {
+			reached[c.Site] = true
+		}
+	}
+	if len(reached) < nret {
+		if os.Getenv("GOCV_DEBUG") != "" {
+			fmt.Fprintf(os.Stderr, "BOUNDED-FAIL %s: only %d of %d return sites are reached within the bound\n", fr.Key, len(reached), nret)
+		}
+		return nil
+	}
 	for _, s := range fr2.Sites {
 		if s.Status != "discharged" {
 			if os.Getenv("GOCV_DEBUG") != "" {
